@@ -13,7 +13,7 @@ func init() {
 	register("C04", "Decided: condition codes, opcode bytes, length-adjusted displacement, range test on the narrowed value, little-endian fields, origin in the current address, mode guards. Not decided: that pass 1 leaves the target where the emitter assumes it.",
 		ruleT3, ruleT3k, ruleBranch, ruleI1, ruleF6, ruleS3, ruleS3e, ruleS3j, ruleE1, ruleE1b, ruleE3, ruleE3s, ruleU8p, ruleU7, ruleS3f)
 	register("C05", "Decided: per-clause lockstep of size and emitted elements, lane order, decimal hand-off, RESB flow, non-emitting statements, every operand clause contributes or diagnoses, ALIGNB address basis.",
-		ruleP7, ruleP7e, ruleF2, ruleN5, ruleP2b, ruleP8, ruleW3, ruleE10, ruleF6, ruleO3, ruleT7, ruleT7h, ruleS5s, ruleE1, ruleE1b, ruleE3, ruleE3s)
+		ruleP7, ruleP7e, ruleF2, ruleN5, ruleP2b, ruleP8, ruleW3, ruleE10, ruleF6, ruleO3, ruleT7, ruleT7h, ruleS5s, ruleE1, ruleE1b, ruleE3, ruleE3s, ruleL14r)
 	register("C06", "Decided: precedence layering of the grammar, operator table of the evaluator, literal bases. Not decided: 64-bit overflow semantics.",
 		ruleT7, ruleT7b, ruleT10Expr, ruleG2, ruleE3, ruleE3s, ruleR6, ruleI1t, ruleI1, ruleK6, ruleZ3b, ruleD13z, ruleT7h, ruleE10, ruleO6, ruleG6p)
 	register("C07", "Decided: every handler return emits, delegates or diagnoses at >= warning (level decided from colog's own table plus the CLI's AddHeader calls); Emit failures are never lost; data-directive clauses; code-generation handlers.",
@@ -29,9 +29,9 @@ func init() {
 	register("C12", "Decided: layout attributes of the extracted grammar. Not decided: language equivalence under re-layout.",
 		ruleT10Layout, ruleT10a, ruleL19, ruleT10k, ruleT10c)
 	register("C13", "Decided for gosk's own code: explicit crash primitives reachable from the entry points and parser panic recovery; every constant and variable index, slice expression and forced type assertion; integer division; computed and input-sized make lengths; Must helpers; recursion through the EQU table; bracket nesting depth of the grammar. Not decided: nil dereferences, panics inside generated parsers and third-party modules, the complexity clause.",
-		ruleE6, ruleD13, ruleX13, ruleM13, ruleR13, ruleI13, ruleA13, ruleV13, ruleE6m, ruleM13b, ruleG13, ruleL13, ruleK13, ruleP13r)
+		ruleE6, ruleD13, ruleX13, ruleM13, ruleR13, ruleI13, ruleA13, ruleV13, ruleE6m, ruleM13b, ruleG13, ruleL13, ruleK13, ruleP13r, ruleN13ok)
 	register("C14", "Decided: emission-time context vs traversal-time writers, no package-level writes after init, append-only ocode list, unconditional forward emission loop.",
-		ruleE5, ruleE1, ruleE1b, ruleE3, ruleE3s, ruleEmitLoop, ruleP7, ruleP8, ruleM17w, ruleE10)
+		ruleE5, ruleE1, ruleE1b, ruleE3, ruleE3s, ruleEmitLoop, ruleP7, ruleP8, ruleM17w, ruleE10, ruleL14r)
 	register("C15", "Decided: symbol keys are exact identifier text, tables are never iterated, symbol ordering ignores names.",
 		ruleF5, ruleE2, ruleSymSort, ruleU7, ruleS15, ruleY16, ruleB15, ruleE10, ruleT10k, ruleN15, ruleN15b, ruleN15r, ruleN15g, ruleE1, ruleE1b, ruleE1c)
 	register("C16", "Decided: the origin chain from ORG to every address computation.",
